@@ -1,6 +1,7 @@
 package rules
 
 import (
+	"strings"
 	"fmt"
 	"go/ast"
 	"go/token"
@@ -824,6 +825,153 @@ func c28(c *core.Ctx) {
 		}
 	}
 
+	// C28.orphan: nothing a lock request started stays behind when the request is abandoned.
+	rOrph := c.Rule("C28.orphan", "in the lock package and the gateway's lock handlers, a goroutine that reports its result by an unconditional send on an unbuffered channel made by the enclosing function is always received from: the enclosing function does not receive from that channel only inside a select that has another returning case (client gone, shutdown). Otherwise every abandoned request leaves a goroutine parked on the send forever, holding the key, the lock ID and the queue", 1)
+	{
+		var scope []*core.Func
+		scope = append(scope, p.FuncsIn(pkgLock)...)
+		for _, f := range p.FuncsIn(pkgGateway) {
+			if f.Decl.Recv != nil && (f.Obj.Name() == "Lock" || f.Obj.Name() == "Unlock") {
+				scope = append(scope, f)
+			}
+		}
+		n := 0
+		for _, f := range scope {
+			if f.Decl.Body == nil {
+				continue
+			}
+			info := f.Info()
+			// unbuffered channels made here
+			chans := map[types.Object]token.Pos{}
+			ast.Inspect(f.Decl.Body, func(x ast.Node) bool {
+				as, ok := x.(*ast.AssignStmt)
+				if !ok || len(as.Lhs) != len(as.Rhs) {
+					return true
+				}
+				for i, r := range as.Rhs {
+					call, isCall := core.Unparen(r).(*ast.CallExpr)
+					if !isCall || !isBuiltinCall(info, call, "make") || len(call.Args) == 0 {
+						continue
+					}
+					if _, isChan := info.TypeOf(call.Args[0]).Underlying().(*types.Chan); !isChan {
+						continue
+					}
+					if len(call.Args) >= 2 && !isConst(info, call.Args[1], 0) {
+						continue // buffered
+					}
+					if o := core.ObjOf(info, as.Lhs[i]); o != nil {
+						chans[o] = as.Pos()
+					}
+				}
+				return true
+			})
+			if len(chans) == 0 {
+				continue
+			}
+			// goroutine literals: under a go statement, or handed to a function (SafeGo-style helper)
+			var golits []*ast.FuncLit
+			ast.Inspect(f.Decl.Body, func(x ast.Node) bool {
+				switch v := x.(type) {
+				case *ast.GoStmt:
+					if lit, ok := core.Unparen(v.Call.Fun).(*ast.FuncLit); ok {
+						golits = append(golits, lit)
+					}
+					for _, a := range v.Call.Args {
+						if lit, ok := core.Unparen(a).(*ast.FuncLit); ok {
+							golits = append(golits, lit)
+						}
+					}
+				case *ast.CallExpr:
+					if fo := core.Callee(info, v); fo != nil && strings.Contains(fo.Name(), "Go") {
+						for _, a := range v.Args {
+							if lit, ok := core.Unparen(a).(*ast.FuncLit); ok {
+								golits = append(golits, lit)
+							}
+						}
+					}
+				}
+				return true
+			})
+			inGo := func(n ast.Node) bool {
+				for _, l := range golits {
+					if l.Pos() <= n.Pos() && n.End() <= l.End() {
+						return true
+					}
+				}
+				return false
+			}
+			for ch, pos := range chans {
+				// unconditional sends from a goroutine
+				var send *ast.SendStmt
+				ast.Inspect(f.Decl.Body, func(x ast.Node) bool {
+					ss, ok := x.(*ast.SendStmt)
+					if !ok || core.ObjOf(info, ss.Chan) != ch || !inGo(ss) {
+						return true
+					}
+					inSelect := false
+					for _, nd := range core.PathTo(f.Decl.Body, ss) {
+						if cc, isCC := nd.(*ast.CommClause); isCC && cc.Comm == ast.Stmt(ss) {
+							inSelect = true
+						}
+					}
+					if !inSelect {
+						send = ss
+					}
+					return true
+				})
+				if send == nil {
+					continue
+				}
+				n++
+				c.Touch(f)
+				// receives in the parent
+				abandon := ""
+				received := false
+				ast.Inspect(f.Decl.Body, func(x ast.Node) bool {
+					u, ok := x.(*ast.UnaryExpr)
+					if !ok || u.Op != token.ARROW || core.ObjOf(info, u.X) != ch || inGo(u) {
+						return true
+					}
+					received = true
+					for _, nd := range core.PathTo(f.Decl.Body, u) {
+						sel, isSel := nd.(*ast.SelectStmt)
+						if !isSel {
+							continue
+						}
+						for _, cl := range sel.Body.List {
+							cc := cl.(*ast.CommClause)
+							if cc.Pos() <= u.Pos() && u.End() <= cc.End() {
+								continue
+							}
+							if cc.Comm == nil {
+								abandon = "a default case"
+								continue
+							}
+							ast.Inspect(cc, func(y ast.Node) bool {
+								if _, isRet := y.(*ast.ReturnStmt); isRet {
+									abandon = "another case that returns (" + core.ExprStr(commExpr(cc.Comm)) + ")"
+								}
+								return true
+							})
+						}
+					}
+					return true
+				})
+				switch {
+				case !received:
+					rOrph.Bad(f.Key+":"+ch.Name()+":always-received", pos, "a goroutine sends its result on this unbuffered channel and the function never receives from it: the goroutine stays parked on the send")
+				case abandon != "":
+					rOrph.Bad(f.Key+":"+ch.Name()+":always-received", pos, "a goroutine sends its result on this unbuffered channel, but the function receives from it only in a select with "+abandon+": when that case wins, the goroutine is parked on the send forever - one leaked goroutine (with the key, the lock ID and a granted or queued lock) per abandoned request")
+				default:
+					rOrph.Ok(f.Key+":"+ch.Name()+":always-received", pos, "received on every path")
+				}
+			}
+		}
+		if n == 0 {
+			rOrph.Ok(pkgLock+"+gateway.Lock:no-result-goroutines", token.NoPos, "no goroutine of the lock paths reports through an unbuffered channel")
+		}
+	}
+
 	_, st := p.StructOf(pkgLock, "lock")
 	for i := 0; i < st.NumFields(); i++ {
 		fld := st.Field(i)
@@ -1115,4 +1263,18 @@ func isTailAppend(info *types.Info, n ast.Node, field *types.Var) bool {
 	}
 	sel, ok := core.Unparen(call.Args[0]).(*ast.SelectorExpr)
 	return ok && core.FieldOf(info, sel) == field
+}
+
+func commExpr(st ast.Stmt) ast.Expr {
+	switch v := st.(type) {
+	case *ast.ExprStmt:
+		return v.X
+	case *ast.AssignStmt:
+		if len(v.Rhs) == 1 {
+			return v.Rhs[0]
+		}
+	case *ast.SendStmt:
+		return v.Chan
+	}
+	return &ast.Ident{Name: "?"}
 }
